@@ -127,6 +127,13 @@ def run(ck, P):
         "inotify_init1": {"create_inotifyfd"}, "syscall": {"create_pidfd"}, "eventfd": {"create_eventfd"}, "dup": {"create_src", "m_ctx_fd"},
         "fopen": {"libmodule_log_init"},
     }
+    # the small creating helpers may be folded into their only caller without changing who opens what
+    FOLD = {"_pipe": "init_pubsub_fd", "create_timerfd": "create_priv_fd", "create_signalfd": "create_priv_fd", "create_inotifyfd": "create_priv_fd",
+            "create_pidfd": "create_priv_fd", "create_eventfd": "create_priv_fd"}
+    for op_, fs_ in table.items():
+        for h_ in list(fs_):
+            if h_ in FOLD and not P.by_name.get(h_):
+                fs_.add(FOLD[h_])
     nop = 0
     for ev in P.calls_to(OPENERS):
         f = ev.fn
